@@ -12,13 +12,9 @@ CLAIMS = {
  "C01": ('Lean theorem C01_accepted, with no hypothesis about the schedule: for every accepted statement list (constants fit, widths <= 128), every flag set and every iteration order of the hash tables, the action list is pre ++ fin with fin the state-changing actions, and after any cycle that completes every driven wire equals its definition evaluated in the final valuation (start-of-cycle registers and memory), undriven wires keep their values, and that valuation is the only one with this property agreeing on register outputs and constants (uniqueness = order independence). It rests on Program_new_valid (the value-writing actions of an accepted program form a ValidFrom schedule: pure, outputs pairwise distinct, no read of a wire written by the action itself or a later one), proved from the stage invariants of Program::new and the sorter theorem on the built graph; C01_settlement / C01_stable / settled_unique / C01_order_independent are the schedule-level lemmas. The real values of every cycle are compared with the scheduling-free fixpoint specification Spec.cycle, several hash seeds per program.',
          'StmtsWF is what lexer and grammar guarantee (tied by correspondence). That two iteration orders give the same set of actions and the same constants (so that the unique settlement is literally the same valuation) is proved at graph level (C12_*) and sampled at program level.',
          'Lean 4 proof (settlement + uniqueness by induction over the schedule) + schedule validation + differential oracle'),
- "C02": ("Lean theorem ev_correct / C02_eval_eq_denote (all flags, widths, values, nestings): an expression the checker accepts "
-         "at width w evaluates (after the width fix-up) to exactly Spec.dv at exactly Spec.sw, or reports division by zero "
-         "exactly when the specification evaluates a zero divisor; C02_assign: the stored value is that value truncated to "
-         "the declared width. Per-operator lemmas applyBin_spec/applyUn_spec/slice_spec/concat_spec derive the Rust "
-         "mask/shift/wrapping arithmetic from plain modular arithmetic.",
-         "Constants are assumed to fit their width (wfEx), which the lexer establishes and the correspondence stream exercises.",
-         "Lean 4 proof by mutual structural induction + differential oracle on type-directed expressions"),
+ "C02": ("Lean theorem ev_correct / C02_eval_eq_denote (all flags, widths, values, nestings): an expression the checker accepts at width w evaluates (after the width fix-up) to exactly Spec.dv at exactly Spec.sw, or reports division by zero exactly when the specification evaluates a zero divisor; C02_assign: the stored value is that value truncated to the declared width. Per-operator lemmas applyBin_spec/applyUn_spec/slice_spec/concat_spec derive the Rust mask/shift/wrapping arithmetic from plain modular arithmetic. C02_accepted lifts this to whole programs with no hypothesis about the schedule: for every accepted statement list, flag set and iteration order, at the end of every cycle that completes, every assigned wire n holds Spec.stored w (Spec.dv ...) — the specification's value of its source expression under the final valuation, truncated to the declared width; with C01_accepted that valuation is the unique solution of the program's equations.",
+         'Constants are assumed to fit their width (wfEx), which the lexer establishes and the correspondence stream exercises.',
+         'Lean 4 proof by mutual structural induction + differential oracle on type-directed expressions'),
  "C03": ("Lean theorem C03_accepted, with no hypothesis beyond acceptance: for every accepted statement list, every flag set and iteration order, in every state where the bank signals are present (every state a run reaches, by C07_accepted), the clock edge sets every register of a bank to its default if the bank's bubble signal is non-zero, else keeps it if stall is non-zero, else loads the end-of-cycle value of its input; no other wire changes. The side conditions of the bank lemmas C03_bank_edge / C03_edge (outputs of a bank distinct, inputs never outputs, control signals never register signals, names of different banks disjoint, every default belongs to an output) are derived from the register-bank stage of Program::new (step3_facts: all signal names distinct, shapes of names). That outputs do not change within a cycle is C01_accepted (stability).",
          'Stall/bubble histories come from induction over cycles (C07_soundness keeps the presence hypothesis); the S-PROG banks profile ties the model to the code.',
          'Lean 4 proof (fold invariants over defaults/signals, frame lemma across banks) + differential oracle'),
